@@ -537,6 +537,23 @@ pub fn run(cfg: &Config) -> Report {
             }
             2 => {
                 rep.cover("family.max_threshold");
+                if mode == Mode::Asan && case % 16 == 2 {
+                    // one row more than the 8-bit arg-maximum documents (it refuses with a panic):
+                    // refusing is fine, reading past the matrix is not
+                    let rows = 65_537usize;
+                    let mut big = StripedScores::<u8, U32>::empty();
+                    big.resize(rows, rows * 32);
+                    big.matrix_mut()[rows - 1][31] = 200;
+                    let _ = guard(|| {
+                        let a = Pipeline::<Dna, _>::avx2().unwrap();
+                        std::hint::black_box((a.argmax(&big), a.max(&big)))
+                    });
+                    let _ = guard(|| {
+                        let d = Pipeline::<Dna, _>::dispatch();
+                        std::hint::black_box(d.argmax(&big))
+                    });
+                    rep.cover("argmax.u8.beyond_row_limit");
+                }
                 if mode != Mode::Miri {
                     let rows = *rng.pick(&[0usize, 1, 2, 7, 8, 9, 31, 32, 33, 255, 256, 257]);
                     let fam = rng.below(7);
@@ -564,7 +581,12 @@ pub fn run(cfg: &Config) -> Report {
             5 => {
                 rep.cover("family.scanner");
                 let m = *rng.pick(&[1usize, 4, 8, 15, 17]);
-                let l = if small { rng.range(m, 200) } else { rng.range(m, 2500) };
+                // some scans span several blocks of 256 rows (the scanner then scores row sub-ranges
+                // that do not start at row 0)
+                let l = if small { rng.range(m, 200) } else if rng.chance(0.3) { rng.range(8_200, 20_000) } else { rng.range(m, 2500) };
+                if l > 8192 {
+                    rep.cover("scanner.several_blocks");
+                }
                 u8_and_scan(case, rng, rep, mode, l, m);
             }
             _ => misc(case, rng, rep, mode),
